@@ -1,10 +1,6 @@
 // replay for property C10, harness validation::common::verif_kani_proofs::c10_time_windows_rule_n2 (crate vrp-pragmatic, proof module common)
 // failed: assertion failed: accepted == expected @ common_proofs.rs:50
 // run: /verif/check --replay /verif/replays/C10/c10_time_windows_rule_n2.rs
-/// Test generated for harness `validation::common::verif_kani_proofs::c10_time_windows_rule_n2` 
-///
-/// Check for `cover`: "accepted"
-
 #[test]
 fn kani_concrete_playback_c10_time_windows_rule_n2_16641836327349289057() {
     let concrete_vals: Vec<Vec<u8>> = vec![
@@ -26,10 +22,6 @@ fn kani_concrete_playback_c10_time_windows_rule_n2_16641836327349289057() {
     kani::concrete_playback_run(concrete_vals, c10_time_windows_rule_n2);
 }
 
-/// Test generated for harness `validation::common::verif_kani_proofs::c10_time_windows_rule_n2` 
-///
-/// Check for `cover`: "rejected-by-rule"
-
 #[test]
 fn kani_concrete_playback_c10_time_windows_rule_n2_17384225399242397809() {
     let concrete_vals: Vec<Vec<u8>> = vec![
@@ -50,10 +42,6 @@ fn kani_concrete_playback_c10_time_windows_rule_n2_17384225399242397809() {
     ];
     kani::concrete_playback_run(concrete_vals, c10_time_windows_rule_n2);
 }
-
-/// Test generated for harness `validation::common::verif_kani_proofs::c10_time_windows_rule_n2` 
-///
-/// Check for `assertion`: "assertion failed: accepted == expected"
 
 #[test]
 fn kani_concrete_playback_c10_time_windows_rule_n2_14377058342039382124() {
